@@ -50,6 +50,15 @@ C04_ASSUME = ["model family: harness c04Model (enum with base, record with optio
 CC = "cc_kernels"
 
 PARTS = {
+    "C13": [
+        (G, "gosym_part", dict(name="c13_order_and_files", entry="internal/zzverif.C13Order", args_quick=(1,), args_thorough=(0,),
+                               required_sites=("reordered-accepted", "same-schema", "dependencies-first", "same-field-plan", "same-python-serializer"),
+                               assumptions=["model family: harness c13Defs (record, generic record, aliases instantiating it with vector/optional arguments, enum with symbolic base, "
+                                            "record with enum/optional-alias/map fields, protocol); 8 definition orders x 3 file layouts",
+                                            "YAML text -> AST (yaml.v3, participle) is outside: models are built at the level dsl.Validate receives them"],
+                               desc="real dsl.Validate + schema writer + python serializer emitter on the same symbolic definitions listed in a different order / spread over files: "
+                                    "both accepted, identical schema text, identical field plans and serializer expressions, and every definition listed after its dependencies")),
+    ],
     "C01": [
         (CC, "c01_cc_kernels", dict()),
     ],
@@ -153,6 +162,11 @@ NOTES = ("Every claim is bounded: 'holds' means unsat within the stated bound. E
 NOT_APPLICABLE = {}
 
 CLAIMS = {
+    "C13": dict(text="Bounded symbolic execution (gosym) of the real validation pipeline (incl. topological sort, generic instantiation) on one symbolic model listed in 8 "
+                     "definition orders x 3 file layouts: accept/reject, schema text, per-field wire plan and emitted Python serializer expressions are identical, and definitions "
+                     "come out dependencies-first.",
+                note="Covers the reorder / re-split clause only. Shorthand-vs-expanded syntax and primitive aliases go through yaml.v3/participle text parsing, which this "
+                     "technique cannot encode (DESIGN section 7); that clause is not claimed."),
     "C01": dict(engine="llsym+pysym+gosym",
                 text="Bounded symbolic execution of the real runtime kernels: (llsym) clang-14 IR of coded_stream.h executed symbolically from an arbitrary valid stream state "
                      "with symbolic values: emitted bytes equal the reference wire codec (docs/reference/binary.md), reading them back yields the value and consumes exactly those bytes, "
